@@ -475,7 +475,7 @@ def emit_impl_header(file, pattern, rules):
 
 LOOP_KW = ('loop', 'while', 'for')
 CLAUSE_KW = ('tags', 'rules', 'attr', 'ret', 'requires', 'ensures', 'decreases', 'prologue',
-             'loop', 'loopbody', 'after', 'end', 'safety', 'abstract', 'rename', 'fnname')
+             'loop', 'loopbody', 'after', 'end', 'safety', 'abstract', 'rename', 'fnname', 'hintafter')
 
 
 class FnSpec:
@@ -493,6 +493,7 @@ class FnSpec:
         self.canary = True
         self.line = 0
         self.abstracts = []   # (kind 'T12'|'T13', pattern text, replacement text)
+        self.hints = []       # (statement pattern, ghost block) spliced right after that statement
 
     def loop(self, n):
         return self.loops.setdefault(n, {'label': None, 'invariant': [], 'ensures': [],
@@ -708,6 +709,18 @@ def emit_fn(spec, impl_item, linemap_cb):
             bed.replace(toks[z][2], toks[z + len(ptoks) - 1][3], repl)
         info.setdefault('rewrites', []).append({'rule': kind, 'source': pat, 'emitted': repl, 'count': len(hits)})
         rules.setdefault(kind, [])
+    # ghost-only hint blocks anchored after a statement that is named by its exact tokens (T7 extension)
+    for hn, (pat, blocktxt) in enumerate(spec.hints):
+        ptoks = [t[1] for t in code_tokens(lex(pat))]
+        hits = []
+        z = ba + 1
+        while z + len(ptoks) <= bb:
+            if [t[1] for t in toks[z:z + len(ptoks)]] == ptoks:
+                hits.append(z)
+            z += 1
+        if len(hits) != 1 or ptoks[-1] != ';':
+            raise AnchorLost('hintafter: statement `%s` occurs %d times in fn %s' % (pat[:60], len(hits), spec.name))
+        bed.insert(toks[hits[0] + len(ptoks) - 1][3], block(blocktxt, '%s#hint%d' % (spec.name, hn), 'hint', None))
     # T4 rename self -> self_
     if 'T4' in rules:
         for z in range(ba + 1, bb):
@@ -875,6 +888,14 @@ def parse_fn_block(lines, start, spec):
                     spec.abstracts.append(('T13', pat.strip(), repl.strip()))
             elif kw == 'fnname':
                 spec.rules['T5name'] = [rest]
+            elif kw == 'hintafter':
+                # hintafter <exact tokens of one statement, ending in ';'>  ...ghost block... end
+                buf = []
+                i += 1
+                while lines[i].strip() != 'end':
+                    buf.append(lines[i])
+                    i += 1
+                spec.hints.append((rest, '\n'.join(buf)))
             elif kw == 'prologue':
                 buf = []
                 i += 1
